@@ -32,7 +32,7 @@ __all__ = [
 import heapq
 from collections import defaultdict, deque
 from collections.abc import Callable, Iterator, Sequence
-from itertools import chain
+from itertools import chain, islice
 from typing import TYPE_CHECKING, Any, cast
 
 if TYPE_CHECKING:
@@ -477,7 +477,10 @@ class Walker:
         return None
 
     def _next(self) -> WalkEntry | None:
-        max_entries = self.max_entries
+        # In topological order the limit applies to the sorted sequence (see
+        # _reorder): cutting the date-ordered stream first can keep a parent
+        # and drop its child when timestamps are skewed or tied.
+        max_entries = None if self.order == ORDER_TOPO else self.max_entries
         while max_entries is None or self._num_entries < max_entries:
             entry = next(self._queue)
             if entry is not None:
@@ -486,7 +489,11 @@ class Walker:
                 if not self._out_queue:
                     return None
                 entry = self._out_queue.popleft()
-                if self._should_return(entry):
+                # In topological order the path and time filters are applied
+                # after the sort as well: the sort follows parent links, and
+                # a filtered-out commit would cut the chain between an
+                # ancestor and a descendant that are both kept.
+                if self.order == ORDER_TOPO or self._should_return(entry):
                     self._num_entries += 1
                     return entry
         return None
@@ -504,6 +511,9 @@ class Walker:
         """
         if self.order == ORDER_TOPO:
             results = _topo_reorder(results, self.get_parents)
+            results = (entry for entry in results if self._should_return(entry))
+            if self.max_entries is not None:
+                results = islice(results, self.max_entries)
         if self.reverse:
             results = reversed(list(results))
         return results
